@@ -481,6 +481,12 @@ func (r *runner) run(t0 time.Time) int {
 		}
 	}
 
+	discharged := 0
+	for _, o := range oblEv {
+		if o.Status == "complete" {
+			discharged++
+		}
+	}
 	// evidence
 	var fnList []string
 	for f := range covAll {
@@ -507,7 +513,9 @@ func (r *runner) run(t0 time.Time) int {
 		"rule":                          r.spec.Rule,
 		"samples":                       samples,
 		"exhaustive":                    allComplete && engineFailure == "",
-		"obligations":                   oblEv,
+		"obligation_details":            oblEv,
+		"obligations":                   len(oblEv),
+		"discharged":                    discharged,
 		"solver": map[string]interface{}{"primary": "z3 -in (4.8.12)", "fallback": "cvc5 --solve-bv-as-int=sum, z3-new", "queries": total.Queries, "sat": total.Sat, "unsat": total.Unsat,
 			"unknown": total.Unknown, "fallback_queries": total.FallbackQueries, "solver_s": total.SolveDur.Seconds(), "branches_decided_by_cached_model": total.ModelHits},
 		"functions_encoded":              fnList,
